@@ -230,6 +230,11 @@ func firstLines(s string, n int) string {
 	if len(l) > n {
 		l = l[:n]
 	}
+	for i := range l {
+		if len(l[i]) > 400 {
+			l[i] = l[i][:400] + "…"
+		}
+	}
 	return strings.Join(l, "\n   ")
 }
 
